@@ -143,6 +143,9 @@ type Step struct {
 	// parses a header and then a body from the same buffer); the observation is that of the
 	// second call. -1 / absent: single parse.
 	Again *int `json:"again,omitempty"`
+	// Quiet: the step is carried out (Buffer, Reset, Parse, accessors) but not reported: long
+	// histories are about what the instance has been through, not about every step of it
+	Quiet bool `json:"quiet,omitempty"`
 }
 
 // Req is one request to a worker.
